@@ -173,11 +173,19 @@ def tlc_mc(module, cfg, wdir, workers=8, timeout=900, lib=None):
     rc, out, dt = sh(cmd, cwd=wdir, env=env, timeout=timeout)
     shutil.rmtree(meta, ignore_errors=True)
     res = {"rc": rc, "wall_s": dt, "out": out, "module": module, "cfg": cfg}
-    if rc == 124:
-        raise ToolError(f"TLC timed out on {module}/{cfg} after {timeout}s")
-    m = re.search(r"(\d+) states generated, (\d+) distinct states found, (\d+) states left on queue", out)
+    # A run that hits its time budget is not a failure: every state explored so far satisfied the invariants
+    # (TLC stops at the first violation), the result is just not exhaustive.  The last progress line gives the
+    # counts; there is no coverage table, so the vacuity check is skipped by the caller (timed_out = True).
+    res["timed_out"] = rc == 124
+    ms = re.findall(r"([\d,]+) states generated(?: \([\d,]+ s/min\))?, ([\d,]+) distinct states found(?: \([\d,]+ ds/min\))?, ([\d,]+) states left on queue", out)
+    m = None
+    if ms:
+        class _M:
+            def __init__(self, t): self.t = [x.replace(",", "") for x in t]
+            def group(self, i): return self.t[i - 1]
+        m = _M(ms[-1])
     if not m:
-        raise ToolError(f"TLC produced no state count for {module}/{cfg}:\n" + out[-3000:])
+        raise ToolError(f"TLC produced no state count for {module}/{cfg}" + (" before its time budget ended" if rc == 124 else "") + ":\n" + out[-3000:])
     res["states_generated"] = int(m.group(1))
     res["distinct"] = int(m.group(2))
     res["left"] = int(m.group(3))
